@@ -13,7 +13,7 @@ VDQ = "std::collections::VecDeque"
 def checkout_drop(facts):
     for f in facts.fns.values():
         if f.nkey.endswith("PinnedDrop>::drop::__drop_inner") and "client::pool::checkout::Checkout" in f.nkey:
-            return facts.unit(f)
+            return facts.unit(f, expand=True)
     raise KeyError("pinned drop of Checkout")
 
 
@@ -179,7 +179,7 @@ def P12(ctx, facts):
 # ------------------------------------------------------------------ P13 / C03.1
 
 def P13(ctx, facts):
-    f = facts.unit(facts.method("client::pool::checkout::Checkout", "Future", "poll"))
+    f = facts.unit(facts.method("client::pool::checkout::Checkout", "Future", "poll"), expand=True)
     ctx.touched(f)
     wp = [c for c in f.calls() if c.matches(r"client::pool::checkout::Waiting.*Future>::poll") or
           (c.is_("std::future::Future::poll", "core::future::future::Future::poll", "futures_core::Future::poll") and "checkout::Waiting<" in (c.t.get("argtys") or [""])[0])]
@@ -408,7 +408,7 @@ def P8(ctx, facts):
         ctx.check(ok, "Pool::checkout|pop-first|%s" % norm(c.name).split("::")[-1], "the idle list is consulted before waiting / connecting are touched",
                   "waiting/connecting touched before the idle list is consulted", c.where(), f.path_desc(w))
     news = f.calls("client::pool::checkout::Checkout::new")
-    ctx.floor("Pool::checkout|Checkout::new", len(news), 3, "Checkout::new calls in Pool::checkout")
+    ctx.floor("Pool::checkout|Checkout::new", len(news), 1, "Checkout::new calls in Pool::checkout")
     some_pop = L_variant(f, "Some", of_call="client::pool::PoolInner::pop")
     contains = calls_on_field(f, "connecting", HSET + "::contains")
     ctx.floor("Pool::checkout|contains", len(contains), 1, "connecting.contains in Pool::checkout")
@@ -416,43 +416,66 @@ def P8(ctx, facts):
     dep_false = L_call(f, HSET + "::contains", False)
     pb = f.calls(VDQ + "::push_back")
     ctx.floor("Pool::checkout|enqueue", len(pb), 1, "enqueue of the checkout's sender")
-    kinds = {"idle": 0, "dependent": 0, "dial": 0}
-    for c in news:
-        on_some, _ = f.guarded(c.bb, some_pop)
-        on_dep, _ = f.guarded(c.bb, dep_true)
-        connector_vals = ap.values_at(c.bb, c.args[3])
-        conn_vals = ap.values_at(c.bb, c.args[4])
-        is_none = lambda vs: all(v is not None and v[0] == "variant" and v[1] == "None" for v in vs)
-        is_some = lambda vs: all(v is not None and v[0] == "variant" and v[1] == "Some" for v in vs)
-        if on_some:
-            kinds["idle"] += 1
-            ctx.check(is_none(connector_vals) and is_some(conn_vals), "Pool::checkout|idle-hit",
-                      "on an idle hit the checkout carries the popped connection and no connector (no dial)",
-                      "idle hit builds a checkout with connector=%s connection=%s" % (sorted(map(str, connector_vals)), sorted(map(str, conn_vals))), c.where())
-            cr = f.roots(c.args[4], through_calls=False)
-            ctx.check(any(r.kind == "call" and r.site.is_("client::pool::PoolInner::pop") for r in cr), "Pool::checkout|idle-hit-conn",
-                      "the connection handed to the checkout is the one popped", "connection roots: %s" % sorted(map(repr, cr)), c.where())
-            # must not enqueue as waiter nor mark connecting
-            reach = f.reach([c.bb]) | set()
-            before = [x for x in pb if f.path(0, [c.bb], avoid_blocks={x.bb}) is None]
-            ctx.check(not before, "Pool::checkout|idle-hit-no-enqueue", "an idle hit does not enqueue a waiter", "idle hit enqueues a waiter", c.where())
-        elif on_dep:
-            kinds["dependent"] += 1
-            ctx.check(is_none(connector_vals) and is_none(conn_vals), "Pool::checkout|dependent-no-dial",
-                      "while an attempt is in flight a further checkout gets no connector (it waits instead of dialing)",
-                      "a checkout that found an in-flight attempt still gets connector=%s" % sorted(map(str, connector_vals)), c.where())
-        else:
-            kinds["dial"] += 1
-            ctx.check(is_some(connector_vals) and is_none(conn_vals), "Pool::checkout|dial",
-                      "otherwise the checkout owns its connector", "dialing checkout built with connector=%s" % sorted(map(str, connector_vals)), c.where())
-            okd, w = f.guarded(c.bb, dep_false)
-            ctx.check(okd, "Pool::checkout|dial-only-if-no-attempt", "a checkout dials only on the edge connecting.contains(token) == false",
-                      "a checkout can dial although an attempt is in flight", c.where(), f.path_desc(w))
-            rr = f.roots(c.args[3])
-            ctx.check(any(r.kind == "arg" and r.desc == "connector" for r in rr), "Pool::checkout|dial-own-connector",
-                      "the dialing checkout receives the caller's connector", "connector roots: %s" % sorted(map(repr, rr)), c.where())
-    ctx.check(all(v >= 1 for v in kinds.values()), "Pool::checkout|three-outcomes", "idle hit, dependent wait and dial are all present (%s)" % kinds,
+    # The three outcomes, decided per path class (not per call site: one shared Checkout::new fed by a conditional
+    # `connector` is the same program as three separate calls).  A class is the set of feasible paths that take the
+    # edges of its name; on every such path reaching a Checkout::new the abstract values of its connector /
+    # connection arguments are read off.
+    E = f.edges()
+    pop_some = {(x, y) for (x, y, lab) in E if lab is not None and some_pop(lab)}
+    pop_sw = {x for (x, y) in pop_some}
+    pop_none = {(x, y) for (x, y, lab) in E if x in pop_sw and (x, y) not in pop_some}
+    dep_t = {(x, y) for (x, y, lab) in E if lab is not None and dep_true(lab)}
+    dep_f = {(x, y) for (x, y, lab) in E if lab is not None and dep_false(lab)}
+    ctx.floor("Pool::checkout|pop-test", len(pop_some), 1, "Some edge of PoolInner::pop")
+    ctx.floor("Pool::checkout|dependent-test", min(len(dep_t), len(dep_f)), 1, "both edges of connecting.contains(token)")
+    is_none = lambda vs: bool(vs) and all(v is not None and v[0] == "variant" and v[1] == "None" for v in vs)
+    is_some = lambda vs: bool(vs) and all(v is not None and v[0] == "variant" and v[1] == "Some" for v in vs)
+    classes = {"idle": pop_none, "dependent": pop_some | dep_f, "dial": pop_some | dep_t}
+    kinds = {}
+    for cls, avoid in classes.items():
+        seen_sites = {}
+
+        def obs(bb, st, seen_sites=seen_sites):
+            for c in news:
+                if c.bb == bb:
+                    seen_sites.setdefault(c.bb, (set(), set()))
+                    seen_sites[c.bb][0].add(ap._eval_operand(st, c.args[3]))
+                    seen_sites[c.bb][1].add(ap._eval_operand(st, c.args[4]))
+        try:
+            reached, _ = ap.explore(0, avoid_edges=avoid, observe=obs)
+        except AbsPaths.Undecided as e:
+            ctx.undecided("Pool::checkout|%s" % cls, str(e))
+            continue
+        kinds[cls] = len(seen_sites)
+        # every path of the class ends in a Checkout::new (the request is never dropped on the floor)
+        for c in news:
+            if c.bb not in seen_sites:
+                continue
+            connector_vals, conn_vals = seen_sites[c.bb]
+            if cls == "idle":
+                ctx.check(is_none(connector_vals) and is_some(conn_vals), "Pool::checkout|idle-hit",
+                          "on an idle hit the checkout carries the popped connection and no connector (no dial)",
+                          "idle hit builds a checkout with connector=%s connection=%s" % (sorted(map(str, connector_vals)), sorted(map(str, conn_vals))), c.where())
+                cr = f.roots(c.args[4], through_calls=False)
+                ctx.check(any(r.kind == "call" and r.site.is_("client::pool::PoolInner::pop") for r in cr), "Pool::checkout|idle-hit-conn",
+                          "the connection handed to the checkout is the one popped", "connection roots: %s" % sorted(map(repr, cr)), c.where())
+                ctx.check(not any(x.bb in reached for x in pb), "Pool::checkout|idle-hit-no-enqueue", "an idle hit does not enqueue a waiter", "idle hit enqueues a waiter", c.where())
+            elif cls == "dependent":
+                ctx.check(is_none(connector_vals) and is_none(conn_vals), "Pool::checkout|dependent-no-dial",
+                          "while an attempt is in flight a further checkout gets no connector (it waits instead of dialing)",
+                          "a checkout that found an in-flight attempt still gets connector=%s" % sorted(map(str, connector_vals)), c.where())
+            else:
+                ctx.check(is_some(connector_vals) and is_none(conn_vals), "Pool::checkout|dial",
+                          "otherwise the checkout owns its connector", "dialing checkout built with connector=%s" % sorted(map(str, connector_vals)), c.where())
+                rr = f.roots(c.args[3])
+                ctx.check(any(r.kind == "arg" and r.desc == "connector" for r in rr), "Pool::checkout|dial-own-connector",
+                          "the dialing checkout receives the caller's connector", "connector roots: %s" % sorted(map(repr, rr)), c.where())
+    ctx.check(all(kinds.get(k, 0) >= 1 for k in classes), "Pool::checkout|three-outcomes", "idle hit, dependent wait and dial are all present (%s)" % kinds,
               "Pool::checkout lacks one of the three outcomes: %s" % kinds)
+    # no way to a Checkout::new other than through the three classes: the pop test and the contains test dominate them
+    for c in news:
+        ok, w = f.must_pass(0, [c.bb], pop_sw)
+        ctx.check(ok, "Pool::checkout|outcome-after-pop-test", "every checkout is built after the idle list was consulted", "a checkout can be built without consulting the idle list", c.where(), f.path_desc(w))
     ins = calls_on_field(f, "connecting", HSET + "::insert")
     ctx.floor("Pool::checkout|marker-insert", len(ins), 1, "connecting.insert in Pool::checkout")
     for c in ins:
